@@ -219,30 +219,35 @@ theorem read_mans (m : Opm) (h : OpmWf m) : opmMansFromXml m.frame (opmDataDict 
     show List.mapM (loadMan m.frame) ((x :: r).map (manDict m.frame)) = _
     rw [mapM_loadMan m.frame (x :: r) (fun y hy => (h.mans y (by rw [hm]; exact hy)).1), hback]
 
-theorem read_cov (m : Opm) (h : OpmWf m) : covFromXml m.frame (opmDataDict m) = .ok m.cov := by
+/-- the covariance block of the OPM / OMM XML readers gives the covariance back (absent, own frame, QSW, TNW) -/
+theorem covFromXml_of_lookup (own : String) (hown : own ∈ frameTable.map (·.1)) (cov : Option CovM) (hwf : ∀ c, cov = some c → CovWf c)
+    (D : Dict) (hl : D.lookup "covarianceMatrix" = promote (cov.toList.map fun c => Val.dict (covDict none c))) :
+    covFromXml own D = .ok cov := by
   unfold covFromXml
-  rw [data_lookup_cov]
-  cases hc : m.cov with
+  rw [hl]
+  cases hc : cov with
   | none => rfl
   | some c =>
     simp only [Option.toList, List.map_cons, List.map_nil, promote, asDict, bind, Except.bind]
-    rw [(cov_xml_roundtrip' m.frame h.frame c (h.cov c hc)).2]
+    rw [(cov_xml_roundtrip' own hown c (hwf c hc)).2]
     rfl
+
+theorem read_cov (m : Opm) (h : OpmWf m) : covFromXml m.frame (opmDataDict m) = .ok m.cov :=
+  covFromXml_of_lookup m.frame h.frame m.cov h.cov _ (data_lookup_cov m)
 
 /-- an empty user-defined dict is not written, hence read as none -/
 def normUd : Option (List (String × String)) → Option (List (String × String))
   | some [] => none
   | x => x
 
-theorem read_ud (m : Opm) (h : OpmWf m) : xmlUd wrapOpmUd (opmDataDict m) = .ok (normUd m.ud) := by
-  have hl := data_lookup_ud m
-  match hu : m.ud, h.ud with
-  | none, _ => rw [hu] at hl; simp [xmlUd, hl, udVals, promote, normUd, pure, Except.pure]
-  | some [], _ => rw [hu] at hl; simp [xmlUd, hl, udVals, promote, normUd, pure, Except.pure]
+/-- the user-defined block of the OPM / OMM XML readers gives the fields back, for any number of them -/
+theorem xmlUd_of_lookup (wrap : Bool) (hw : wrap = true) (ud : Option (List (String × String))) (hwf : UdWf ud)
+    (D : Dict) (hl : D.lookup "userDefinedParameters" = promote (udVals ud)) : xmlUd wrap D = .ok (normUd ud) := by
+  match ud, hwf with
+  | none, _ => simp [xmlUd, hl, udVals, promote, normUd, pure, Except.pure]
+  | some [], _ => simp [xmlUd, hl, udVals, promote, normUd, pure, Except.pure]
   | some (kv :: r), hwf =>
-    rw [hu] at hl
     simp only [udVals, promote] at hl
-    have hv : ∀ x ∈ kv :: r, x.2 ≠ "" := hwf _ rfl
     have hnl : ∀ v ∈ (kv :: r).map udFieldVal, v.isList = false := by
       intro v hv; simp only [List.mem_map] at hv; obtain ⟨_, _, rfl⟩ := hv; rfl
     obtain ⟨x, hx⟩ : ∃ x, promote ((kv :: r).map udFieldVal) = some x := by
@@ -251,9 +256,12 @@ theorem read_ud (m : Opm) (h : OpmWf m) : xmlUd wrapOpmUd (opmDataDict m) = .ok 
       | cons a b => exact ⟨_, rfl⟩
     have hlu : (udDict (kv :: r)).lookup "USER_DEFINED" = some x := by
       rw [udDict, lookup_accD_same _ _ _ rfl, hx]
-    have hit := iterGroup_promote wrapOpmUd .attrError _ hnl (Or.inl (by decide)) x hx
+    have hit := iterGroup_promote wrap .attrError _ hnl (Or.inl hw) x hx
     simp only [xmlUd, hl, asDict, hlu, bind, Except.bind, pure, Except.pure, hit, mapM_readUdField]
     simp [normUd]
+
+theorem read_ud (m : Opm) (h : OpmWf m) : xmlUd wrapOpmUd (opmDataDict m) = .ok (normUd m.ud) :=
+  xmlUd_of_lookup wrapOpmUd (by decide) m.ud h.ud _ (data_lookup_ud m)
 
 /-! ### the whole message -/
 
